@@ -133,7 +133,45 @@ def check_config(ctx, cfg):
                         own = sorted(tuple(i.path[-1]) for i in child.all_resources())
                         if own != sorted((c_,) for c_ in cn):
                             bad.append(("window's own resources changed", cn, own))
-        res("history_exact", not bad, "shared anonymous window: " + str(bad[:3]))
+        # nested anonymous windows: a map that absorbed names from an anonymous window of its own is itself added anonymously;
+        # the names it absorbed count (at every depth), and a refusal leaves parent and window exactly as they were
+        for depth in (1, 2, 3):
+            for clash_at in (None,) + tuple(range(depth + 1)):
+                for parent_name in (("ctrl",), ("ctrl", "x")):
+                    lvl = []
+                    inner = None
+                    for d in range(depth, -1, -1):              # innermost first
+                        mp = MemoryMap(addr_width=4 + (depth - d), data_width=8)
+                        own = ("ctrl",) if clash_at == d else (f"own{d}",)
+                        mp.add_resource(R(), name=own, size=1)
+                        if inner is not None:
+                            mp.add_window(inner)
+                        lvl.append(own); inner = mp
+                    top = MemoryMap(addr_width=8, data_width=8)
+                    top.add_resource(R(), name=parent_name, size=1)
+                    before_top, before_win = snapshot(top), snapshot(inner)
+                    expect = clash_at is None
+                    try:
+                        top.add_window(inner); got = True
+                    except ValueError:
+                        got = False
+                    except Exception as e:
+                        bad.append(("add_window of nested anonymous windows raised", type(e).__name__, depth, clash_at, parent_name)); continue
+                    if got != expect:
+                        bad.append(("nested anonymous windows", depth, clash_at, parent_name, "accepted" if got else "refused"))
+                    if not got:
+                        if snapshot(top) != before_top or snapshot(inner) != before_win:
+                            bad.append(("refused nested window left a trace", depth, clash_at, parent_name))
+                        try:
+                            inner.add_resource(R(), name="still_open", size=1)
+                        except ValueError as e:
+                            if "out of bounds" not in str(e) and "overlaps" not in str(e):      # a full map refuses for space: not a naming fact
+                                bad.append(("refused nested window is no longer open", str(e)[:60]))
+                    else:
+                        paths = [tuple(map(tuple, i.path)) for i in top.all_resources()]
+                        if len(set(paths)) != len(paths) or len(paths) != depth + 2:
+                            bad.append(("paths after nested anonymous windows", paths))
+        res("history_exact", not bad, "shared / nested anonymous windows: " + str(bad[:3]))
         ctx.nontrivial = True
         return
     if cfg["kind"] == "pairs":
@@ -224,11 +262,17 @@ def check_config(ctx, cfg):
             elif snapshot(target) != before:
                 bad_atomic.append(("add_window", name))
         else:
-            child = new_map()
-            for _ in range(rng.randint(0, 3)):
-                nm = rng.choice(pool)
-                if not any(related(nm, v) for v in vis[id(child)]):
-                    child.add_resource(R(), name=nm, size=1); vis[id(child)].append(nm)
+            # the window: a fresh map with a few resources - or a map built earlier in this history that is still open (it may hold
+            # windows of its own, named and anonymous: names it absorbed from anonymous sub-windows count as its own)
+            older = [m for m in maps if id(m) not in frozen and m is not root and m is not target]
+            if older and rng.random() < 0.35:
+                child = rng.choice(older)
+            else:
+                child = new_map()
+                for _ in range(rng.randint(0, 3)):
+                    nm = rng.choice(pool)
+                    if not any(related(nm, v) for v in vis[id(child)]):
+                        child.add_resource(R(), name=nm, size=1); vis[id(child)].append(nm)
             if child.addr_width > target.addr_width:
                 continue
             anonymous = rng.random() < 0.6
@@ -250,7 +294,8 @@ def check_config(ctx, cfg):
                     fresh_name = ("zz_after_refusal", len(log))
                     child.add_resource(R(), name=fresh_name, size=1); vis[id(child)].append(fresh_name)
                 except ValueError as e:
-                    bad_atomic.append(("add_window refused, and afterwards the window refuses a legal name", str(e)[:80]))
+                    if "out of bounds" not in str(e) and "overlaps" not in str(e):          # a full map refuses for space: not a naming fact
+                        bad_atomic.append(("add_window refused, and afterwards the window refuses a legal name", str(e)[:80]))
             if got != expect:
                 bad_hist.append(("add_window", name, queries, list(vis[id(target)]), "accepted" if got else "refused"))
             if got:
